@@ -339,6 +339,93 @@ def gen_consts():
 GENERATORS = {"Tables.lean": gen_tables, "Consts.lean": gen_consts}
 
 
+# ----------------------------------------------------------------------------------------
+# matrix.rs: limits, layout element counts and view extents
+
+def conv_len_expr(e):
+    """usize expression over haystack_len / needle_len -> Lean Nat expression over h n.
+    Only + - * and parentheses; `h + 1 - n` never underflows under the asserted `h >= n`."""
+    e = e.strip().replace("self.", "")
+    e = re.sub(r"\bhaystack_len\b", "h", e)
+    e = re.sub(r"\bneedle_len\b", "n", e)
+    if not re.fullmatch(r"[hn0-9\s+\-*()]+", e):
+        raise TranslateError(f"unsupported length expression {e!r}")
+    return e
+
+
+def gen_layout():
+    src = strip_comments(read("matcher/src/matrix.rs"))
+    cs, allc = consts_of(src, ["MAX_MATRIX_SIZE", "MAX_HAYSTACK_LEN", "MAX_NEEDLE_LEN"])
+    # Layout::array::<T>(expr) in MatrixLayout::new, in order
+    lay = re.findall(r"let\s+(\w+)_layout\s*=\s*Layout::array::<(\w+)>\(\s*(.*?)\s*\)\s*\.unwrap\(\);", src, re.S)
+    names = [x[0] for x in lay]
+    if names != ["haystack", "bonus", "rows", "score", "matrix"]:
+        raise TranslateError(f"MatrixLayout::new: unexpected layouts {names}")
+    ext = re.findall(r"layout\.extend\((\w+)_layout\)", src)
+    if ext != names:
+        raise TranslateError(f"MatrixLayout::new: layouts extended in unexpected order {ext}")
+    # slice_from_raw_parts_mut(ptr, expr) in fieds_from_ptr, in order
+    views = re.findall(r"let\s+(\w+)\s*=\s*slice_from_raw_parts_mut\(\s*(\w+)\s*,\s*(.*?)\s*,?\s*\);", src, re.S)
+    vnames = [v[0] for v in views]
+    if vnames != ["haystack", "bonus", "rows", "cells", "matrix"]:
+        raise TranslateError(f"fieds_from_ptr: unexpected views {vnames}")
+    offs = re.findall(r"base\.add\(self\.(\w+)_off\)", src)
+    if offs != ["haystack", "bonus", "rows", "score", "matrix"]:
+        raise TranslateError(f"fieds_from_ptr: unexpected offsets {offs}")
+    tys = {"C": None, "u8": (1, 1), "u16": (2, 2), "ScoreCell": (8, 8), "MatrixCell": (1, 1)}
+    if not re.search(r"if size_of::<ScoreCell>\(\) != 8", src) or not re.search(r"#\[repr\(align\(8\)\)\]", src):
+        raise TranslateError("ScoreCell size/align check not found")
+    if not re.search(r"#\[repr\(transparent\)\]\s*pub struct MatrixCell\(pub\(crate\) u8\);", src):
+        raise TranslateError("MatrixCell is no longer a transparent u8")
+    # the alloc guards
+    g = re.search(r"let cells = haystack_\.len\(\) \* needle_len;\s*if cells > MAX_MATRIX_SIZE\s*\|\|\s*haystack_\.len\(\) > u16::MAX as usize\s*\|\|\s*needle_len > MAX_NEEDLE_LEN\s*\{\s*return None;\s*\}", src)
+    if not g:
+        raise TranslateError("MatrixSlab::alloc guards changed shape")
+    if not re.search(r"if matrix_layout\.layout\.size\(\) > size_of::<MatcherData>\(\) \{\s*return None;", src):
+        raise TranslateError("MatrixSlab::alloc size guard changed shape")
+    # MatcherData fields
+    md = re.search(r"struct MatcherData \{(.*?)\}", src, re.S)
+    if not md:
+        raise TranslateError("struct MatcherData not found")
+    total = 0
+    align = 1
+    fsz = {"char": (4, 4), "u8": (1, 1), "u16": (2, 2), "ScoreCell": (8, 8)}
+    fields = re.findall(r"(\w+)\s*:\s*\[(\w+);\s*(\w+)\]", md.group(1))
+    if len(fields) != 5:
+        raise TranslateError("MatcherData fields changed")
+    for fname, ty, cnt in fields:
+        if ty not in fsz:
+            raise TranslateError(f"MatcherData: unknown element type {ty}")
+        total += fsz[ty][0] * allc[cnt]
+        align = max(align, fsz[ty][1])
+    # repr(Rust) may reorder fields; every field size here is a multiple of its alignment and the
+    # sum is a multiple of the struct alignment, so size = sum regardless of order (checked)
+    if total % align != 0:
+        raise TranslateError("MatcherData size is not a multiple of its alignment; padding would depend on field order")
+    out = ["/- GENERATED by translator/translate.py from matcher/src/matrix.rs — do not edit -/",
+           "set_option linter.unusedVariables false", "namespace NucleoVerif.Gen", ""]
+    for n_ in ["MAX_MATRIX_SIZE", "MAX_HAYSTACK_LEN", "MAX_NEEDLE_LEN"]:
+        out.append(f"def {n_} : Nat := {cs[n_]}")
+    out.append(f"/-- `size_of::<MatcherData>()` -/\ndef slabSize : Nat := {total}")
+    out.append(f"def slabAlign : Nat := {align}")
+    out.append("")
+    for (nm, ty, expr), (vn, _ptr, vexpr) in zip(lay, views):
+        out.append(f"/-- element count of `{nm}_layout` = `Layout::array::<{ty}>({' '.join(expr.split())})` -/")
+        out.append(f"def layoutCount_{nm} (h n : Nat) : Nat := {conv_len_expr(expr)}")
+        out.append(f"/-- element count of the `{vn}` view = `slice_from_raw_parts_mut(_, {' '.join(vexpr.split())})` -/")
+        out.append(f"def viewCount_{nm} (h n : Nat) : Nat := {conv_len_expr(vexpr)}")
+        if ty == "C":
+            out.append(f"def elemSize_{nm} (charSize : Nat) : Nat := charSize")
+        else:
+            out.append(f"def elemSize_{nm} (_charSize : Nat) : Nat := {tys[ty][0]}")
+        out.append("")
+    out.append("end NucleoVerif.Gen")
+    return "\n".join(out) + "\n"
+
+
+GENERATORS["Layout.lean"] = gen_layout
+
+
 def main():
     changed = []
     for name, fn in GENERATORS.items():
